@@ -227,7 +227,14 @@ fn refine_kind(kind: &'static str, exp: &Expect, out: &Outcome) -> &'static str 
             let mut relaxed = p.clone();
             relaxed.value = None;
             let stem = got.trim_end_matches("...").trim_end_matches('…');
-            if relaxed.matches(e) && got != want && got.len() < want.len() + 4 && want.starts_with(stem) && stem.len() < want.len() {
+            let marked = got.ends_with("...") || got.ends_with('…');
+            if relaxed.matches(e)
+                && got != want
+                && !stem.is_empty()
+                && (marked || stem.len() >= 16)
+                && stem.len() < want.len()
+                && want.starts_with(stem)
+            {
                 return "value-truncated";
             }
         }
